@@ -30,8 +30,7 @@ def check_conservation(case, fracs):
             if l["ts"][0] > e["us"]:
                 bad.append(f"fraction {k}: lot row {lot} acquired after the disposal row {ev}")
     for row, e in evs.items():
-        if e["cls"] == 2 and not hist.intra_fee_taxed(e):
-            continue
+        # every taxable event incl. every transfer with a non-zero fee, however small its fiat value (C03)
         if taken_ev.get(row, 0) != e["amt"]:
             bad.append(f"event row {row}: fractions sum to {taken_ev.get(row, 0)}, amount leaving the holder is {e['amt']}")
     return bad, taken_lot
